@@ -504,7 +504,6 @@ fn op_btape(w: &[&str], cx: &mut Cx) -> Option<String> {
 }
 
 
-pub fn gen_for(_prop: &str, _g: &mut Gen) {}
 
 // ------------------------------------------------------------------------------------------
 // streaming readers (C07, C08) and skipping (C09)
@@ -1890,4 +1889,185 @@ fn op_jsonnum(w: &[&str], cx: &mut Cx) -> Option<String> {
         }
     }
     Some(format!("ok numbers={} strings={}", numbers, strings))
+}
+
+// ------------------------------------------------------------------------------------------
+// generation: the x-scale lines of each property
+
+fn e(g: &mut Gen, line: String) {
+    let mut it = line.split(' ');
+    let key = format!("scale:{}:{}", it.next().unwrap_or(""), it.next().unwrap_or(""));
+    g.count(&key);
+    g.emit(format!("x-scale {}", line));
+}
+fn grid(g: &mut Gen, check: &str, shapes: &[&str], sizes: &[usize]) { for s in shapes { for n in sizes { e(g, format!("{} {} {}", check, s, n)); } } }
+
+const COUNTS: [usize; 6] = [255, 256, 257, 65535, 65536, 70000];
+const BYTES: [usize; 12] = [255, 256, 4095, 4096, 32766, 32767, 32768, 32769, 65534, 65535, 65536, 100000];
+const DEPTHS: [usize; 7] = [16, 17, 64, 255, 256, 300, 1024];
+const GAPS: [usize; 7] = [15, 255, 4096, 32767, 32768, 65536, 100000];
+/// binary string lengths: u8 / i16 / u16 boundaries and the default buffer (token = 4 + len bytes)
+const BSTR: [usize; 12] = [255, 256, 4092, 4093, 32763, 32764, 32765, 32767, 32768, 65531, 65534, 65535];
+
+pub fn gen_for(prop: &str, g: &mut Gen) {
+    // thorough tier: one more size per family well past every threshold
+    let big = g.budget(70000, 300000);
+    let more = g.thorough;
+    let counts: Vec<usize> = { let mut v = COUNTS.to_vec(); if more { v.extend([65537, 131072, big]); } v };
+    let depths: Vec<usize> = DEPTHS.to_vec();
+    // the streaming reader rescans a carried-over comment after every refill (quadratic under one-byte reads): the longest
+    // comments are left to the thorough tier
+    let cgaps: Vec<usize> = if more { GAPS.to_vec() } else { vec![15, 255, 4096, 32767, 32768, 40000] };
+    match prop {
+        "C01" | "C06" => {
+            grid(g, "ttape", &["fields", "qfields", "wide-u"], &counts);
+            grid(g, "ttape", &["mixfields", "arr-i32", "arr-q", "arr-obj", "dups"], &[65535, 65536, big]);
+            grid(g, "ttape", &["depth-obj", "depth-arr", "depth-mix"], &depths);
+            grid(g, "ttape", &["long-u", "long-q", "long-qe", "long-key", "long-qkey", "long-in"], &BYTES);
+            grid(g, "ttape", &["comment", "blank", "comment-in", "blank-in"], &GAPS);
+            e(g, format!("ttape fields-v 12000 100"));
+            e(g, format!("ttape fields-v 300 4096"));
+            if more { e(g, format!("ttape fields-v 100000 100")); }
+            if prop == "C06" {
+                grid(g, "btape", &["tokfields", "mixfields", "arr-i32", "arr-obj", "wide"], &[65535, 65536, big]);
+                grid(g, "btape", &["depth-obj", "depth-arr", "depth-mix"], &depths);
+                grid(g, "btape", &["long-q", "long-u"], &BSTR);
+            }
+        }
+        "C03" => {
+            grid(g, "btape", &["tokfields", "qfields", "ifields", "arr-i32", "arr-q", "arr-f32", "arr-u32"], &counts);
+            grid(g, "btape", &["mixfields", "arr-obj", "wide", "wide-u", "qkey-objs", "dups", "fields"], &[65535, 65536, big]);
+            grid(g, "btape", &["depth-obj", "depth-arr", "depth-mix"], &depths);
+            grid(g, "btape", &["long-q", "long-u", "long-qkey", "long-key", "long-in"], &BSTR);
+            e(g, format!("btape arr-long 1000 100"));
+            e(g, format!("btape arr-long 70 65535"));
+            e(g, format!("btape fields-v 12000 100"));
+        }
+        "C07" => {
+            grid(g, "tread", &["fields", "mixfields"], &[65536, big]);
+            grid(g, "tread", &["arr-q", "arr-i32", "wide-u"], &[65536]);
+            grid(g, "tread", &["long-u", "long-q", "long-qe", "long-key", "long-qkey"], &BYTES);
+            grid(g, "tread", &["comment", "comment-in"], &cgaps);
+            grid(g, "tread", &["blank", "blank-in"], &GAPS);
+            grid(g, "tread", &["depth-mix", "depth-arr"], &[300, 1024]);
+            e(g, format!("tread fields-v 12000 100"));
+            e(g, format!("tread fields-v 40 32767"));
+            if more { e(g, format!("tread fields-v 100000 100")); }
+        }
+        "C08" => {
+            grid(g, "bread", &["mixfields", "tokfields"], &[65536, big]);
+            grid(g, "bread", &["arr-i32", "arr-q", "arr-f32", "arr-u32", "qkey-objs"], &[65535, 65536]);
+            grid(g, "bread", &["long-q", "long-u", "long-qkey", "long-key"], &BSTR);
+            grid(g, "bread", &["depth-mix", "depth-arr"], &[300, 1024]);
+            e(g, format!("bread arr-long 70 65535"));
+            e(g, format!("bread fields-v 12000 100"));
+            if more { grid(g, "bread", &["depth-arr"], &[65535, 65536]); }
+        }
+        "C09" => {
+            grid(g, "tskip", &["wide-u", "arr-q"], &[65536, big]);
+            grid(g, "tskip", &["arr-obj"], &[big]);
+            grid(g, "tskip", &["depth-obj", "depth-arr", "depth-mix"], &depths);
+            grid(g, "tskip", &["depth-arr"], &[65535, 65536]);
+            grid(g, "tskip", &["long-in"], &[255, 4096, 32767, 32768, 65536, 100000]);
+            grid(g, "tskip", &["comment-in"], &cgaps);
+            grid(g, "tskip", &["blank-in"], &GAPS);
+            e(g, format!("tskip arr-long 1000 100"));
+            e(g, format!("tskip arr-long 10 40000"));
+            for n in [0usize, 1, 15, 16, 17, 63, 64, 65, 255, 256, 257, 4095, 4096, 4097, 8200, 32767, 32768, 32769, 40000, 100000] { for p in ["sp", "tab", "nl", "mix", "eu4", "nobrace"] { e(g, format!("tskipu {} {}", p, n)); } }
+            grid(g, "bskip", &["wide", "wide-u", "arr-i32", "arr-q", "arr-obj"], &[65536, big]);
+            grid(g, "bskip", &["depth-obj", "depth-arr", "depth-mix"], &depths);
+            grid(g, "bskip", &["depth-arr", "depth-obj"], &[65535, 65536]);
+            grid(g, "bskip", &["long-in"], &[255, 4092, 32767, 32768, 65535]);
+            e(g, format!("bskip arr-long 1000 100"));
+            e(g, format!("bskip arr-long 10 40000"));
+        }
+        "C02" | "C04" | "C10" => {
+            let c = match prop { "C02" => "tde", "C04" => "bde", _ => "x10" };
+            if c == "x10" && !more { grid(g, c, &["vec", "objs"], &[256, 65536, big]); grid(g, c, &["map", "mapin"], &[255, 65536]); }
+            else { grid(g, c, &["vec", "map", "mapin", "objs"], &[255, 256, 65535, 65536, big]); }
+            grid(g, c, &["str", "ustr"], &[255, 256, 4096, 32766, 32767, 32768, 65534, 65535]);
+            if c == "tde" { grid(g, c, &["str", "ustr"], &[65536, 100000]); }
+            grid(g, c, &["ign-wide", "ign-arr", "ign-fields"], &[65536, big]);
+            grid(g, c, &["ign-deep"], &[255, 256, 257, 1024]);
+            grid(g, c, &["ign-long"], &[32767, 32768, 65535]);
+            grid(g, c, &["pairs"], &[256, 57344]);
+            grid(g, c, &["nest"], &depths);
+        }
+        "C17" => {
+            grid(g, "dom", &["fields", "arr-i32", "wide-u"], &counts);
+            grid(g, "dom", &["arr-q", "arr-obj", "mixfields", "qfields"], &[65535, 65536, big]);
+            grid(g, "dom", &["dups"], &[255, 256, 300, 65535, 65536, big]);
+            grid(g, "dom", &["depth-obj", "depth-arr", "depth-mix"], &[16, 17, 255, 256, 300]);
+        }
+        "C18" => {
+            grid(g, "derive", &["dup"], &[255, 256, 257, 65535, 65536, big]);
+            grid(g, "derive", &["last"], &[255, 256, 1000, 65536]);
+        }
+        "C14" | "C15" => {
+            let c = if prop == "C14" { "wtape" } else { "wcalls" };
+            for (ch, f) in [("s", 0), ("s", 1), ("s", 4), ("s", 9), ("t", 0), ("t", 1), ("t", 4), ("t", 9), ("s", 255), ("t", 2)] {
+                for s in ["depth-mix", "depth-obj", "depth-arr"] { e(g, format!("{} {} 300 {} {}", c, s, ch, f)); }
+            }
+            // the 16-byte indent cache: depth x factor around 16
+            for (d, ch, f) in [(16, "s", 1), (17, "s", 1), (15, "t", 1), (4, "s", 4), (5, "t", 4), (8, "s", 2), (9, "s", 2), (2, "t", 9), (1, "s", 16), (1, "t", 17), (255, "s", 2), (256, "t", 1), (1024, "s", 1), (1024, "t", 9)] {
+                for s in ["depth-mix", "depth-obj"] { e(g, format!("{} {} {} {} {}", c, s, d, ch, f)); }
+            }
+            for s in ["fields", "mixfields", "arr-obj", "wide-u", "qfields", "dups"] { e(g, format!("{} {} {} s 2", c, s, big)); e(g, format!("{} {} 65536 t 1", c, s)); }
+            for n in [255usize, 4096, 32768, 65535, 65536, 100000] { for s in ["long-q", "long-qe", "long-in", "long-u", "long-qkey"] { e(g, format!("{} {} {} s 2", c, s, n)); } }
+            e(g, format!("{} fields-v 12000 s 2 100", c));
+        }
+        "C16" => {
+            grid(g, "json", &["fields", "mixfields", "wide-u", "arr-f32", "arr-obj"], &[65535, 65536, big]);
+            grid(g, "json", &["dups"], &[255, 256, 300, 65536]);
+            grid(g, "json", &["depth-obj", "depth-arr", "depth-mix"], &[16, 127, 128, 129, 255, 256, 300, 1024]);
+            grid(g, "json", &["long-q", "long-qe", "long-u"], &[32768, 65536, 100000]);
+            grid(g, "jsonnum", &["zeros"], &[1, 20, 32, 33, 34, 100, 255, 256, 1000]);
+            grid(g, "jsonnum", &["frac"], &[1, 15, 16, 22, 23, 255, 256, 257, 278, 300, 512]);
+            grid(g, "jsonnum", &["digits"], &[15, 16, 17, 19, 20, 21, 255, 256, 400]);
+        }
+        "C11" => {
+            grid(g, "num", &["zeros"], &[1, 2, 19, 20, 32, 33, 34, 100, 255, 256, 257, 1000, 65536]);
+            grid(g, "num", &["digits"], &[15, 16, 17, 19, 20, 21, 255, 256, 400, 65536]);
+            grid(g, "num", &["frac"], &[1, 15, 16, 17, 22, 23, 255, 256, 257, 278, 300, 512, 1000]);
+        }
+        "C12" => {
+            for n in [255usize, 256, 32768, 65535, 65536, 100000] {
+                for kind in ["plain", "esc", "bs", "hi", "c1", "euro", "utf8", "utf8-3", "bad", "ws"] {
+                    for pos in ["0", "7", "8", "15", "16", "254", "32767", "32768", "65535", "65536", "last"] {
+                        if pos != "last" && pos.parse::<usize>().unwrap() + 4 > n { continue; }
+                        e(g, format!("decode {} {} {}", kind, n, pos));
+                    }
+                }
+            }
+        }
+        "C13" => grid(g, "date", &["zeros"], &[0, 1, 2, 3, 4, 8, 9, 255, 256, 1000, 65536]),
+        "C19" => {
+            for fmt in ["text", "bin"] {
+                let n = 23334;
+                let len = if fmt == "text" { 277452 } else { 233340 };
+                let mut around = |c: usize| (c.saturating_sub(12)..=c + 12).map(|x| x.to_string()).collect::<Vec<_>>().join(",");
+                for c in [12usize, 32768, 65536, 98304, 131072, len - 12] { e(g, format!("trunc {} {} {}", fmt, n, around(c))); }
+                for _ in 0..g.budget(4, 40) { let cuts: Vec<String> = (0..24).map(|_| g.rng.below(len + 1).to_string()).collect(); e(g, format!("trunc {} {} {}", fmt, n, cuts.join(","))); }
+            }
+        }
+        "C20" => {
+            for fmt in ["text", "bin"] {
+                for (cap, step) in [("default", "-"), ("default", "32768"), ("default", "32769"), ("default", "4096"), ("70000", "-"), ("70000", "32768"), ("4096", "4096"), ("4096", "7"), ("64", "64")] {
+                    e(g, format!("fault {} 23334 {} {}", fmt, cap, step));
+                }
+            }
+        }
+        "C05" => {
+            // one large instance of every check (nothing may panic), plus the string lengths around the i16 / u16 limits
+            for l in ["ttape mixfields 70000", "ttape depth-mix 1024", "ttape long-qe 100000", "btape mixfields 70000", "btape depth-mix 1024", "tread fields 70000", "tread long-qe 100000", "tread comment-in 100000",
+                "bread mixfields 70000", "tskip depth-mix 1024", "tskip long-in 100000", "tskipu mix 40000", "bskip depth-mix 1024", "bskip depth-arr 65536", "x10 vec 70000", "x10 map 70000", "x10 nest 1024", "x10 ign-deep 1024",
+                "tde str 100000", "dom dups 70000", "dom depth-mix 300", "derive dup 70000", "derive last 1000", "wtape depth-mix 1024 t 9", "wcalls depth-mix 1024 s 4", "wcalls long-qe 100000 s 2", "json depth-mix 1024", "json fields 70000",
+                "jsonnum frac 300", "num zeros 1000", "num digits 400", "num frac 512", "decode esc 100000 65535", "date zeros 1000", "fault text 23334 default -", "fault bin 23334 default -"] { e(g, l.to_string()); }
+            grid(g, "bread", &["long-q", "long-u"], &[32767, 32768, 65535]);
+            grid(g, "btape", &["long-q", "long-u"], &[32767, 32768, 65535]);
+            grid(g, "bskip", &["long-in"], &[32767, 32768, 65535]);
+            grid(g, "bde", &["str"], &[32767, 32768, 65535]);
+        }
+        _ => {}
+    }
 }
